@@ -14,6 +14,7 @@ type Arch struct {
 	Idx   string   `json:"idx"`
 	Full  bool     `json:"full"`
 	Npad  int      `json:"npad"`
+	Hx    int      `json:"hx"` // 1: non-canonical header (version written as the two-byte integer 0x18 0x01)
 }
 
 func (a *Arch) blocks() []*ABlock {
@@ -36,6 +37,14 @@ func idxCodecNum(kind string) uint64 {
 // payload: CARv1 header, sections, null padding.
 func (a *Arch) payload() []byte {
 	p := refBuildV1(a.rootCids(), a.blocks())
+	if a.Hx == 1 {
+		// the same header with its last byte (version 1 as a one-byte integer) re-encoded in two bytes:
+		// not canonical DAG-CBOR, but accepted by the decoder
+		canon := refHeader(a.rootCids())
+		body := refHeaderBody(a.rootCids(), 1)
+		body = append(body[:len(body)-1], 0x18, 0x01)
+		p = append(append(putUvarint(uint64(len(body))), body...), p[len(canon):]...)
+	}
 	return append(p, make([]byte, a.Npad)...)
 }
 
